@@ -1,51 +1,47 @@
 import SkimModel.Model.SelCursor
 import SkimModel.Generated.CursorFns
+import SkimModel.Lemmas.FnTactics
 /-!
 The integer cores of the list cursor as TRANSLATED from src/selection.rs (`Generated/CursorFns.lean`, rewritten from the source on
 every run) are, for all inputs, the functions the C09 model is built from.  A change of the arithmetic in the source changes the
 generated definition and breaks one of these proofs; a behaviour-preserving rewrite of the source (renamed locals, re-ordered
-independent statements, `min`/`max` spelled as comparisons) still proves, because the proofs are case splits closed by `omega`.
+independent statements, `min`/`max` spelled as comparisons) still proves, because the proofs are case splits closed by `omega` (`fn_eq`, Lemmas/FnTactics.lean).
 -/
 namespace SkimModel.SelCursor
 open SkimModel.Generated
 
 theorem known_height_is_model (s : Cur) : CursorFns.knownHeight s.h = s.H := by
-  unfold CursorFns.knownHeight Cur.H; omega
+  unfold CursorFns.knownHeight Cur.H; fn_eq
 
 theorem move_line_cursor_is_model (s : Cur) (diff : Int) :
     CursorFns.actMoveLineCursor s.rev s.lc s.ic s.n s.H diff = ((moveLine s diff).ic, (moveLine s diff).lc) := by
   unfold CursorFns.actMoveLineCursor moveLine moveRaw
-  cases hr : s.rev <;> (try simp only [Bool.false_eq_true, if_false, if_true, Int.ofNat_eq_natCast]) <;>
-    (repeat' split) <;> (first | rfl | omega | (simp only [Prod.mk.injEq]; omega))
+  cases hr : s.rev <;> (try simp only [Bool.false_eq_true, if_false, if_true, Int.ofNat_eq_natCast]) <;> fn_eq
 
 theorem select_screen_row_is_model (s : Cur) (r : Nat) :
     CursorFns.selectScreenRowDiff s.rev s.lc s.H r = rowDiff s r := by
   unfold CursorFns.selectScreenRowDiff rowDiff
-  cases hr : s.rev <;> (try simp only [Bool.false_eq_true, if_false, if_true, Int.ofNat_eq_natCast]) <;>
-    (repeat' split) <;> (first | rfl | omega)
+  cases hr : s.rev <;> (try simp only [Bool.false_eq_true, if_false, if_true, Int.ofNat_eq_natCast]) <;> fn_eq
 
 theorem append_fixup_is_model (s : Cur) (k : Nat) :
     CursorFns.appendFixup s.lc s.ic (s.n + k) s.H = ((appendItems s k).ic, (appendItems s k).lc) := by
   unfold CursorFns.appendFixup appendItems
   first
     | rfl
-    | (simp only []
-       repeat' split
-       all_goals first | rfl | omega | (simp only [Prod.mk.injEq]; omega))
+    | ((try simp only []); fn_eq)
 
 /-- `Draw::draw` paints the items `item_cursor .. item_cursor + rowsDrawn` (none when the range is empty) -/
 theorem draw_range_is_model (s : Cur) (sh : Nat) :
     (CursorFns.drawRange s.ic s.n sh).1 = s.ic ∧
     (CursorFns.drawRange s.ic s.n sh).2 - (CursorFns.drawRange s.ic s.n sh).1 = rowsDrawn s sh := by
   unfold CursorFns.drawRange rowsDrawn
-  refine ⟨?_, ?_⟩ <;> (try dsimp only) <;> first | rfl | omega
+  refine ⟨?_, ?_⟩ <;> (try dsimp only) <;> fn_eq
 
 /-- the `i`-th painted item is window row `i` and goes to the model's screen row -/
 theorem draw_row_is_model (s : Cur) (sh i : Nat) :
     CursorFns.drawRow s.rev s.ic sh (s.ic + i) = (i, screenRow s sh i) := by
   unfold CursorFns.drawRow screenRow
-  cases hr : s.rev <;> (try simp only [Bool.false_eq_true, if_false, if_true]) <;>
-    (repeat' split) <;> (first | rfl | omega | (simp only [Prod.mk.injEq]; omega))
+  cases hr : s.rev <;> (try simp only [Bool.false_eq_true, if_false, if_true]) <;> fn_eq
 
 /-- the pointer label goes to the window row that equals `line_cursor` -/
 theorem pointer_row_is_model (i lc : Nat) : CursorFns.pointerHere i lc ↔ i = lc := by
